@@ -403,6 +403,97 @@ Section RestFullMoist.
   Qed.
 End RestFullMoist.
 
+(** ** (3) the executed dry whole-state model refines the specification at the modal layer ([primeq_refines_spec] of
+    Thm/PrimEqSpec.v instantiated at the concrete operators, for the EXECUTED explicit_terms_full + implicit_terms_full):
+    the total vorticity / divergence tendency of every in-range coefficient is the clipped modal curl / div / laplacian of the
+    analysed specification momentum vector (zeta+f) k x v + sigma_dot dv/dsigma + R T grad lnps and of KE + g orog (+ G.T).
+    Remaining named exactness hypotheses (those of C04_whole_state_split_invariance): H_one, H_div_grad, H_curl_grad; b_0 = 0. *)
+Section WholeRefine.
+  Context {F : Type} {o : Ops F} {Fc : FieldC o}.
+  Add Field FFwr : (field_c : FieldTh o).
+  Variable g : @HGrid F.
+  Variable c : @PEcfg F.
+  Hypothesis b_top : cb c 0%nat = 0.
+  Variable grav : F.
+  Variable orog : nat -> nat -> F.
+  Variable s0 : @State F.                       (* vorticity, divergence, lnps, tracers *)
+  Variable temp1 : nat -> nat -> nat -> F.      (* temperature variation of the executed state *)
+  Variable T1 : nat -> F.                       (* its reference profile *)
+  Variable v00 : F.
+  Hypothesis H_one : forall i j, (i < hI g)%nat -> (j < hJ g)%nat -> to_nodal g (cur (onem00 v00)) i j = 1.
+  Let X := X_ideal g (cK c) s0.
+  Let lnps := unc (s_lnps s0).
+  Let T := T_abs g c temp1 T1 v00.              (* absolute nodal temperature *)
+  Let Tm := Tm_abs temp1 T1 v00.                (* its modal coefficients *)
+  Hypothesis H_div_grad : forall w,
+      clip_c g (divc_c g (toM_c g (fun p => n_gx (X p) * n_sec2 (X p))) (toM_c g (fun p => n_gy (X p) * n_sec2 (X p)))) w
+      = lap_c g lnps w.
+  Hypothesis H_curl_grad : forall w,
+      clip_c g (curlc_c g (toM_c g (fun p => n_gx (X p) * n_sec2 (X p))) (toM_c g (fun p => n_gy (X p) * n_sec2 (X p)))) w = 0.
+
+  Let s1 := with_stemp s0 temp1.
+  Let c1 := with_tref c T1.
+
+  Lemma wr_rel k a l : (k < cK c)%nat -> (a < hR g)%nat -> (l < hL g)%nat ->
+    temp1 k a l = Tm_abs temp1 T1 v00 k (a, l) - T1 k * onem00 v00 (a, l).
+  Proof. intros. unfold Tm_abs. cbn [fst snd]. ring. Qed.
+
+  Lemma wr_add0 (x y : F) : x = y -> x + 0 = y.
+  Proof. intros ->. ring. Qed.
+
+  Theorem whole_state_refines_spec k a l :
+    (k < cK c)%nat -> (a < hR g)%nat -> (l < hL g)%nat ->
+    let E := explicit_terms_full g c1 grav orog s1 in
+    let I := implicit_terms_full g c1 s1 in
+    s_vort E k a l + s_vort I k a l
+    = clip_c g (fun w' => - curlc_c g (toM_c g (fun p => spec_P Wi c X (rt_abs Wi c T) p k))
+                                      (toM_c g (fun p => spec_Q Wi c X (rt_abs Wi c T) p k)) w') (a, l) /\
+    s_div E k a l + s_div I k a l
+    = clip_c g (fun w' => - divc_c g (toM_c g (fun p => spec_P Wi c X (rt_abs Wi c T) p k))
+                                     (toM_c g (fun p => spec_Q Wi c X (rt_abs Wi c T) p k)) w'
+                          - lap_c g (fun w2 => toM_c g (fun p => kinetic (X p) k) w2 + grav * unc orog w2) w') (a, l)
+      - lap_c g (fun w' => geo_diff false c (fun k' => Tm k' w') k) (a, l).
+  Proof.
+    intros Hk Ha Hl. cbv zeta.
+    destruct (explicit_terms_full_is_assembly g (with_tref c T1) grav orog s1 k a l Hk Ha Hl) as (Ev & Ed & _ & _).
+    cbv zeta in Ev, Ed. change (cK (with_tref c T1)) with (cK c) in *.
+    pose proof (node_eq g c s0 temp1 T1 v00 H_one temp1 T1 wr_rel (fun k0 _ => eq_refl)) as N1. fold s1 in N1.
+    unfold c1. split.
+    - rewrite Ev, (vort_assembly_ext g (with_tref c T1) _ _ N1 k a l Ha Hl).
+      cbn [implicit_terms_full s_vort]. unfold zero3.
+      apply wr_add0.
+      exact (refines_vorticity_modal Wi Wi (toM_c g) (curlc_c g) (clip_c g) (toM_c_lin g) (curlc_c_lin g) (clip_c_lin g)
+               c b_top X T H_curl_grad T1 k (a, l) Hk).
+    - rewrite Ed, (div_assembly_ext g (with_tref c T1) grav _ _ N1 (unc orog) k a l Ha Hl).
+      unfold s1. rewrite (div_implicit_shape g c s0 temp1 T1 v00 (with_tref c T1) temp1 T1 k a l eq_refl Ha Hl wr_rel).
+      exact (refines_divergence_modal Wi Wi (toM_c g) (divc_c g) (lap_c g) (clip_c g) (toM_c_lin g) (divc_c_lin g) (lap_c_lin g)
+               (clip_c_lin g) c b_top grav X T Tm lnps (onem00 v00) (unc orog) H_div_grad (lap_c_const g v00) T1 k (a, l) Hk).
+  Qed.
+
+  (** PARTIAL (solid-body rotation / any state in gradient-wind balance): if the clipped modal operators on the analysed
+      specification quantities vanish at the coefficient - which [solid_body_steady] says of the continuous operators on the
+      continuous fields - the executed model's total vorticity and divergence tendencies vanish there.  Missing for the full
+      statement: alias-freeness of the transforms on the products of the balanced state and the evaluation homomorphism from
+      the differential ring to nodal values (H_sb_vort, H_sb_div are checked by the plugin's solid-body oracle); temperature and
+      surface-pressure tendencies of the balanced state are not covered by a whole-state theorem (column refinement + oracle). *)
+  Theorem whole_state_solid_body_steady_partial k a l :
+    (k < cK c)%nat -> (a < hR g)%nat -> (l < hL g)%nat ->
+    clip_c g (fun w' => - curlc_c g (toM_c g (fun p => spec_P Wi c X (rt_abs Wi c T) p k))
+                                    (toM_c g (fun p => spec_Q Wi c X (rt_abs Wi c T) p k)) w') (a, l) = 0 ->
+    clip_c g (fun w' => - divc_c g (toM_c g (fun p => spec_P Wi c X (rt_abs Wi c T) p k))
+                                   (toM_c g (fun p => spec_Q Wi c X (rt_abs Wi c T) p k)) w'
+                        - lap_c g (fun w2 => toM_c g (fun p => kinetic (X p) k) w2 + grav * unc orog w2) w') (a, l)
+    - lap_c g (fun w' => geo_diff false c (fun k' => Tm k' w') k) (a, l) = 0 ->
+    let E := explicit_terms_full g c1 grav orog s1 in
+    let I := implicit_terms_full g c1 s1 in
+    s_vort E k a l + s_vort I k a l = 0 /\ s_div E k a l + s_div I k a l = 0.
+  Proof.
+    intros Hk Ha Hl Hv Hd. cbv zeta.
+    destruct (whole_state_refines_spec k a l Hk Ha Hl) as (E1 & E2). cbv zeta in E1, E2.
+    rewrite E1, E2. split; assumption.
+  Qed.
+End WholeRefine.
+
 From Dino Require Import Model.ShallowWater.
 
 (** ** (2) shallow water: explicit_terms of Model/ShallowWater.v ([Section SWAssembly], the assembly that
